@@ -86,6 +86,8 @@ struct TcpSock : KFile {
     Time last_activity = 0;
     int syn_tries = 0;
     bool rst_sent = false;
+    std::shared_ptr<TcpSock> closed_peer;   // the other end after its owner closed it: kept so that data sent to it is still answered with a reset
+    bool async_connect_pending_report = false;   // a non-blocking connect completed: the next connect() call reports 0 once, later ones EISCONN
     short poll_mask() override;
     void last_close() override;
     int opt(int level, int name, int def) const { auto i = opts.find((level << 16) | name); return i == opts.end() ? def : i->second; }
